@@ -1340,3 +1340,73 @@ def gen_rrt_script(rng, cfg=None):
     script = dict(script)
     script["items"] = items
     return script, scope, cases
+
+
+def all_exprs(script):
+    """every expression written in a script's items"""
+    out = []
+
+    def from_val(v):
+        if v[0] == "expr":
+            out.append(v[1])
+
+    def from_args(a):
+        if a is None:
+            return
+        for v in a["pos"]:
+            from_val(v)
+        for _k, v in a["kw"]:
+            if v[0] == "list":
+                for x in v[1]:
+                    from_val(x)
+            else:
+                from_val(v)
+
+    for it in script["items"]:
+        if it[0] == "var":
+            from_val(it[3])
+        elif it[0] == "arr":
+            for row in it[4]:
+                out.extend(row)
+        elif it[0] == "stmt":
+            from_args(it[2])
+        elif it[0] == "loop":
+            for s in it[4]:
+                from_args(s[2])
+    return out
+
+
+def values_in_domain(script, vals):
+    """no parameter expression divides by zero or becomes huge at these values"""
+    env = {"{" + k + "}": v for k, v in vals.items()}
+    for e in all_exprs(script):
+        syms = expr_symbols(e)
+        if not syms or any(s.startswith("q") for s in syms):
+            continue
+        if not all(s in env for s in syms):
+            continue
+        try:
+            v = py_eval(strip_vars(e), env)
+        except (OutOfDomain, ZeroDivisionError, OverflowError, KeyError):
+            return False
+        if isinstance(v, (int, float, complex)) and not finite_ok(v, 1e9):
+            return False
+        if isinstance(v, (float, complex)) and v != 0 and abs(v) < 1e-6:
+            return False
+    return True
+
+
+def strip_vars(e):
+    """replace declared-variable references by 1.5 (only poles in the parameters matter here)"""
+    k = e[0]
+    if k == "var":
+        return ("float", "1.5")
+    if k == "idx":
+        return ("float", "1.5")
+    if k in ("brk", "pos", "neg"):
+        return (k, strip_vars(e[1]))
+    if k == "fn":
+        return (k, e[1], strip_vars(e[2]))
+    if k in ("add", "sub", "mul", "div", "pow"):
+        return (k, strip_vars(e[1]), strip_vars(e[2]))
+    return e
